@@ -20,7 +20,8 @@ def handleC15 (quirks : List String) (op : String) (args : List String) : String
       let q : Quirks := { andOrSameLevel := quirks.contains "andOrSameLevel",
                           relEqSameLevel := quirks.contains "relEqSameLevel",
                           remZeroSign := quirks.contains "remZeroSign",
-                          undefDeferred := quirks.contains "undefDeferred" }
+                          undefDeferred := quirks.contains "undefDeferred",
+                          undefKept := quirks.contains "undefKept" }
       resLine (evalParse q (parseRsass q ts)) ++ "\t" ++ resLine (evalParse spec (parseSass ts))
     | none => "bad-op"
   | _, _ => "bad-op"
